@@ -1,4 +1,4 @@
-import MosnVerif.Lemmas.Downstream.Frames
+import MosnVerif.Lemmas.Downstream.P3Base
 /-! what the helpers of the machine do to the clause groups of the invariant -/
 namespace MosnVerif.Model.Downstream
 open MosnVerif.Gen.ProxyPhase MosnVerif.Gen.ProxyReason MosnVerif.Gen.ProxyRetry
